@@ -151,11 +151,26 @@ def p2pkh(pubkey_hash):
     return b'\x76\xa9\x14' + pubkey_hash + b'\x88\xac'
 
 
-def funding_output(rng, amount, pubkey_hash, position):
+def claim_output_with_script_len(rng, amount, pubkey_hash, length):
+    """a claim-name output paying pubkey_hash whose script is exactly `length` bytes (padding the description)"""
+    for pad in range(0, 400):
+        c = Claim()
+        c.stream.description = 'p' * pad
+        txo = Output.pay_claim_name_pubkey_hash(amount, 'bnd', c, pubkey_hash)
+        n = len(txo.script.source)
+        if n == length:
+            return txo
+        if n > length:
+            break
+    return None
+
+
+def funding_output(rng, amount, pubkey_hash, position, claim_script_len=None):
     """a fake funding transaction with `position`+1 outputs; returns its output at `position`"""
     outs = [Output.pay_pubkey_hash(rng.randrange(1000, 10 ** 9), os.urandom(20) if False else rng.randbytes(20))
             for _ in range(position)]
-    outs.append(Output.pay_pubkey_hash(amount, pubkey_hash))
+    special = claim_output_with_script_len(rng, amount, pubkey_hash, claim_script_len) if claim_script_len else None
+    outs.append(special or Output.pay_pubkey_hash(amount, pubkey_hash))
     src = Output.pay_pubkey_hash(10 ** 10, rng.randbytes(20))
     feeder = Transaction().add_outputs([src])
     tx = Transaction().add_inputs([Input.spend(feeder.outputs[0])]).add_outputs(outs)
@@ -207,17 +222,23 @@ class Env:
 
 
 # ------------------------------------------------------------------ checks
-def check_input_signatures(run, model, env, rng, idx):
+def check_input_signatures(run, model, env, rng, idx, boundary=None, boundary_len=None):
     n_in = rng.choice([1, 1, 2, 3, 5, rng.randrange(1, 21)])
     n_out = rng.choice([1, 2, 3, rng.randrange(1, 12)])
-    ins, spent = [], []
+    if boundary == 'n-inputs':
+        n_in = boundary_len
+    if boundary == 'n-outputs':
+        n_out = boundary_len
+    ins, spent, spent_scripts = [], [], []
     for j in range(n_in):
         pkh = rng.choice(env.hashes)
         if n_in >= 2 and j < 2 and rng.random() < 0.5:
             pkh = env.hashes[0] if j == 0 else env.hashes[8]     # receiving #0 and change #0 in one session
-        txo = funding_output(rng, rng.randrange(10 ** 5, 10 ** 10), pkh, rng.choice([0, 0, 1, 2, 7]))
+        txo = funding_output(rng, rng.randrange(10 ** 5, 10 ** 10), pkh, rng.choice([0, 0, 1, 2, 7]),
+                             claim_script_len=(boundary_len if (boundary == 'spent-script' and j == 0) else None))
         ins.append(Input.spend(txo))
         spent.append(pkh)
+        spent_scripts.append(txo.script.source)
     outs = []
     for _ in range(n_out):
         k = rng.random()
@@ -232,8 +253,14 @@ def check_input_signatures(run, model, env, rng, idx):
             outs.append(Output.pay_script_hash(amt, rng.randbytes(20)))
         else:
             outs.append(Output.pay_update_claim_pubkey_hash(amt, 'up', rng.randbytes(20).hex(), random_claim(rng), rng.randbytes(20)))
+    if boundary == 'output-script':
+        special = claim_output_with_script_len(rng, CENT, rng.randbytes(20), boundary_len)
+        if special is not None:
+            outs[0] = special
+    if boundary == 'n-outputs':
+        outs = [Output.pay_pubkey_hash(1000 + j, rng.randbytes(20)) for j in range(n_out)]
     tx = Transaction().add_inputs(ins).add_outputs(outs)
-    staged = rng.random() < 0.45
+    staged = rng.random() < 0.45 and boundary is None
     if staged:
         # the daemon's publish flow: the unsigned transaction is sized / serialised first, then an output is
         # changed in place (channel signature, channel key), and only then are the inputs signed
@@ -260,14 +287,24 @@ def check_input_signatures(run, model, env, rng, idx):
             txi.sequence = rng.choice([0, 1, 0xfffffffe, 0xffffffff])
     env.loop.run_until_complete(tx.sign([env.account]))
     raw = tx.raw
-    ptx = parse_legacy_tx(raw)
     case = {'kind': 'input-signatures', 'index': idx, 'raw': raw.hex(), 'spent_pubkey_hashes': [h.hex() for h in spent]}
+    try:
+        ptx = parse_legacy_tx(raw)
+        if len(ptx['ins']) != len(tx.inputs) or len(ptx['outs']) != len(tx.outputs):
+            raise ValueError('input/output counts differ from the transaction object')
+    except Exception as e:  # noqa
+        run.case(case, nontrivial=True, sample=False)
+        run.violation(case, f'the signed transaction is not the standard encoding of its fields (independent parser: '
+                            f'{type(e).__name__}: {e})', signature={'kind': 'raw-not-standard', 'raw': raw.hex()[:64]})
+        return
     run.case(case, nontrivial=True, sample=(idx < 2))
     run.count('inputs=%d' % min(n_in, 6))
     run.count('staged-assembly' if staged else 'direct-assembly')
+    if boundary:
+        run.count('boundary:%s=%s' % (boundary, boundary_len))
     bad = None
     for i, x in enumerate(ptx['ins']):
-        spent_script = p2pkh(spent[i])
+        spent_script = spent_scripts[i]
         try:
             sig, o = read_push(x['script'], 0)
             pub, o = read_push(x['script'], o)
@@ -517,6 +554,105 @@ def check_legacy(run, model, env, rng):
             s.unsigned_payload = keep
 
 
+class StubServer:
+    """the wallet-server calls Ledger.resolve() needs (resolve, get_transaction_batch), answered from raw transactions"""
+
+    def __init__(self):
+        self.by_url, self.raw = {}, {}
+
+    def publish(self, url, stream_raw, channel_raw):
+        self.by_url[url] = (Transaction(stream_raw), Transaction(channel_raw))
+        for raw in (stream_raw, channel_raw):
+            self.raw[Transaction(raw).id] = raw
+
+    async def retriable_call(self, function, *args, **kwargs):
+        return await function(*args, **kwargs)
+
+    async def resolve(self, urls, **kwargs):
+        import base64
+        from lbry.schema.types.v2.result_pb2 import Outputs as OutputsMessage
+        page = OutputsMessage()
+        seen = set()
+        for url in urls:
+            stream_tx, channel_tx = self.by_url[url]
+            m = page.txos.add()
+            m.tx_hash, m.nout, m.height = stream_tx.hash, 0, 0
+            m.claim.short_url = url[len('lbry://'):]
+            m.claim.channel.tx_hash, m.claim.channel.nout, m.claim.channel.height = channel_tx.hash, 0, 0
+            if channel_tx.hash not in seen:
+                seen.add(channel_tx.hash)
+                e = page.extra_txos.add()
+                e.tx_hash, e.nout, e.height = channel_tx.hash, 0, 0
+                e.claim.short_url = url[len('lbry://'):].split('/')[0]
+        return base64.b64encode(page.SerializeToString()).decode()
+
+    async def get_transaction_batch(self, txids, restricted=True):
+        return {txid: (self.raw[txid].hex(), {}) for txid in txids}
+
+
+def _tamper(raw, needle, replacement):
+    assert len(needle) == len(replacement) and raw.count(needle) == 1
+    return raw.replace(needle, replacement)
+
+
+def check_resolve(run, env, rng):
+    """where the wallet enforces channel signatures: Ledger.resolve of lbry://@channel/stream. Genuine claims
+    (earlier-release format and current format) must come back as claims, tampered ones as an error."""
+    entries = json.load(open(CORPUS))
+    legacy = [e for e in entries if Transaction(bytes.fromhex(e['txs']['stream_tx'])).outputs[0].signable.unsigned_payload]
+    if not legacy:
+        return
+    old_stream = bytes.fromhex(legacy[0]['txs']['stream_tx'])
+    old_channel = bytes.fromhex(legacy[0]['txs']['channel_tx'])
+    server = StubServer()
+    ledger = Ledger({'db': Database(':memory:'), 'headers': Headers(':memory:')})
+    ledger.network = server
+    old_name = Transaction(old_stream).outputs[0].claim_name
+    chan_name = Transaction(old_channel).outputs[0].claim_name
+    urls = {}
+    urls['legacy-genuine'] = f'lbry://{chan_name}/{old_name}'
+    server.publish(urls['legacy-genuine'], old_stream, old_channel)
+    bad_name = old_name[:-1] + ('h' if old_name[-1] != 'h' else 'i')
+    bad_old = _tamper(_tamper(old_stream, b'Here are 5 Reasons', b'Here are 6 Reasons'), old_name.encode(), bad_name.encode())
+    urls['legacy-tampered'] = f'lbry://{chan_name}/{bad_name}'
+    server.publish(urls['legacy-tampered'], bad_old, old_channel)
+    # current format
+    channel = env.channel(rng, 1)
+    claim = Claim()
+    claim.stream.title = 'a modern signed stream'
+    stream = Output.pay_claim_name_pubkey_hash(CENT, 'modern-stream', claim, rng.randbytes(20))
+    stx = Transaction().add_inputs([Input.spend(funding_output(rng, COIN, rng.randbytes(20), 0))]).add_outputs([stream])
+    stream.sign(channel)
+    stx._reset()
+    ctx_raw = channel.tx_ref.tx.raw
+    cname = channel.claim_name
+    # Ledger.resolve looks channels up at nout 0: only usable when the channel is the first output
+    if channel.position == 0:
+        urls['current-genuine'] = f'lbry://{cname}/modern-stream'
+        server.publish(urls['current-genuine'], stx.raw, ctx_raw)
+        bad_new = _tamper(_tamper(stx.raw, b'a modern signed stream', b'a modern signed strean'), b'modern-stream', b'modern-strean')
+        urls['current-tampered'] = f'lbry://{cname}/modern-strean'
+        server.publish(urls['current-tampered'], bad_new, ctx_raw)
+    for batch in ([u] for u in urls.values()):
+        case = {'kind': 'resolve', 'urls': batch}
+        run.case(case, nontrivial=True, sample=False)
+        run.count('resolve')
+        try:
+            result = env.loop.run_until_complete(ledger.resolve([], batch))
+        except Exception as e:  # noqa
+            run.violation(case, f'Ledger.resolve raised {type(e).__name__}: {e}', signature={'kind': 'resolve', 'urls': batch})
+            continue
+        for url in batch:
+            kind = [k for k, v in urls.items() if v == url][0]
+            good = isinstance(result[url], Output)
+            if kind.endswith('genuine') and not good:
+                run.violation(case, f'{kind}: a genuinely channel-signed claim is reported invalid by Ledger.resolve: {result[url]}',
+                              signature={'kind': 'resolve', 'which': kind})
+            if kind.endswith('tampered') and good:
+                run.violation(case, f'{kind}: a tampered claim is accepted as validly signed by Ledger.resolve',
+                              signature={'kind': 'resolve', 'which': kind})
+
+
 def main(run):
     loop = asyncio.new_event_loop()
     asyncio.set_event_loop(loop)
@@ -532,6 +668,14 @@ def main(run):
                 'distinct = distinct raw transaction; all non-trivial.')
     try:
         check_legacy(run, model, env, rng)
+        check_resolve(run, env, rng)
+        # compact-size boundaries inside the signed preimage: counts and script lengths of exactly 252..254, 65535
+        for L in (252, 253, 254):
+            check_input_signatures(run, model, env, rng, 100000 + L, boundary='output-script', boundary_len=L)
+            check_input_signatures(run, model, env, rng, 200000 + L, boundary='spent-script', boundary_len=L)
+        for n in ((253,) if run.tier == 'quick' else (252, 253, 254)):
+            check_input_signatures(run, model, env, rng, 300000 + n, boundary='n-outputs', boundary_len=n)
+        check_input_signatures(run, model, env, rng, 400253, boundary='n-inputs', boundary_len=253)
         for i in range(vlib.scaled(run.tier, 60, 1200)):
             check_input_signatures(run, model, env, rng, i)
         for i in range(vlib.scaled(run.tier, 40, 800)):
